@@ -516,7 +516,9 @@ def sink_case(seed):
                 arr = getattr(sink["position"], c)
             else:
                 arr = sink[c]
-            got = np.atleast_1d(np.asarray(arr.to(cgs[c]).values, float))  # physical quantity in CGS
+            got = np.asarray(arr.to(cgs[c]).values, float)  # physical quantity in CGS
+            if got.shape != (nsink,):
+                return {"what": "sink column %s has shape %s for %d sink(s): one row per sink expected" % (c, got.shape, nsink), "input": desc}
             if got.shape != (nsink,) or not np.allclose(got, np.array(vals[c]) * fac[c], rtol=1e-10):
                 return {"what": "sink column %s: %s expected %s" % (c, got[:3], (np.array(vals[c]) * fac[c])[:3]), "input": desc}
         return None
@@ -566,8 +568,9 @@ def history_case(seed, length=3):
     rw = _writer()
     rng = random.Random(seed)
     ndim = 3
-    ncpu = 4
-    levelmin, levelmax = 2, 3
+    # enough cpus / a deep enough coarse level for a small positional box to narrow the CPU pre-selection
+    ncpu = 8
+    levelmin, levelmax = 3, 4
     hydro_vars = ["density", "pressure"]
     tmp = tempfile.mkdtemp(prefix="c15_")
     try:
@@ -584,8 +587,11 @@ def history_case(seed, length=3):
             "mesh_only": {"select": ["mesh"]},
             "one_var": {"select": {"mesh": ["density"]}},
             "level_cap": {"select": {"mesh": {"level": lambda l: l <= 2}}},
-            "cpu_list": {"cpu_list": [2, 3]},
-            "position": {"select": {"mesh": {"position_x": lambda x: x < osyris.Array(0.3, unit="cm")}}},
+            "cpu_list": {"cpu_list": [2, 3, 7]},
+            # a box in all three axes (the CPU pre-selection only narrows then): one or two of the eight files are read
+            "position": {"select": {"mesh": {"position_x": lambda x: x < osyris.Array(0.1, unit="cm"),
+                                             "position_y": lambda x: x < osyris.Array(0.1, unit="cm"),
+                                             "position_z": lambda x: x < osyris.Array(0.1, unit="cm")}}},
             "sorted": {"sortby": {"part": "identity"}},
             "nothing": {"select": {"mesh": {"density": lambda d: d < osyris.Array(-1.0, unit="g/cm**3")}}},
             "groups_list": {"select": ["mesh", "part"]},
